@@ -298,15 +298,104 @@ const C18_B: usize = NEGATIVE.len();
 /// three long searches (the quantifier names 3-digit prefixes: thousands of candidates): a single
 /// searcher on the real binary and in E2 past its 1000th candidate, two workers past 2000
 const C18_C: usize = 3;
+/// every prefix length 1..=40 x {exact, last digit wrong, one seeded digit wrong}: "begins with
+/// exactly the requested hex digits" needs candidates that ALMOST match, which random values never do
+const C18_D: usize = 40 * 3;
+/// matches planted at draws around 64, 128 and 256 with worker counts that divide no power of two
+/// (3, 5, 7), followed by 300 non-matching values: rounds, batches and per-worker shares with a remainder
+const C18_E: usize = 12;
+
+/// A candidate that agrees with the requested prefix in every digit but one is delivered first and
+/// then the source fails for good: the search must end in an error, never print the near miss.
+/// variant 0 is the positive control (the exact prefix of the same value must be found).
+pub fn c18_near_miss(k: usize, variant: usize) -> NewCase {
+    let mut rng = fixed_rng(0xC18D, k * 4 + variant);
+    let length = [12usize, 15, 18, 21, 24][rng.usize_below(5)];
+    let ent_len = rm::entropy_len(length).unwrap();
+    let (index, hd_path, path) = if rng.coin() {
+        (None, None, rm::default_path(0))
+    } else {
+        gen_selector(&mut rng)
+    };
+    let password = if rng.coin() { None } else { gen_password(&mut rng) };
+    let pw = password.clone().unwrap_or_default();
+    let (near, addr_hex) = plant(&mut rng, ent_len, &pw, &path, None);
+    let mut digits: Vec<u8> = addr_hex.as_bytes()[..k].to_vec();
+    if variant > 0 {
+        let at = if variant == 1 { k - 1 } else { rng.usize_below(k) };
+        let old = (digits[at] as char).to_digit(16).unwrap();
+        let new = match rng.below(3) {
+            0 => old ^ 1,
+            1 => old ^ 8,
+            _ => (old + 1 + rng.below(15) as u32) % 16,
+        };
+        digits[at] = char::from_digit(new, 16).unwrap() as u8;
+    }
+    let digits = mix_case(&mut rng, std::str::from_utf8(&digits).unwrap(), 2);
+    let workers = [0usize, 1, 2, 3][(k + variant) % 4];
+    let eio = EntResp::Fail { errno: 5, partial: String::new() };
+    let mut c = NewCase {
+        length: Some(length.to_string()),
+        prefix: Some(format!("0x{digits}")),
+        password,
+        account_index: index,
+        hd_path,
+        threads: Some(workers.to_string()),
+        entropy: if variant == 0 { vec![EntResp::ok(&near)] } else { vec![EntResp::ok(&near), eio.clone()] },
+        tail: Some(if variant == 0 { EntResp::ok(&near) } else { eio }),
+        reparse: variant == 0,
+        ..NewCase::default()
+    };
+    if workers >= 2 || rng.coin() {
+        c.e2 = Some(e2_params(&mut rng, workers, c.entropy.len()));
+        c.cross_e1 = workers <= 1;
+        c.e3 = workers >= 2 && rng.chance(1, 4);
+    }
+    c
+}
+
+pub fn c18_boundary_plant(k: usize) -> NewCase {
+    let (plant_at, workers) = [
+        (255usize, 3usize), (256, 3), (257, 3), (255, 7), (256, 7), (257, 7),
+        (63, 5), (64, 5), (65, 5), (127, 5), (128, 6), (129, 5),
+    ][k];
+    let mut rng = fixed_rng(0xC18E, k);
+    let spec = VanitySpec {
+        after_plant: 300,
+        fail_burst: 1,
+        length: 12,
+        digits: 4,
+        case_mode: 2,
+        first_digit: None,
+        workers,
+        plant_at,
+        fail_at: None,
+        engine_e2: true,
+        default_account: true,
+    };
+    let mut c = gen_vanity(&mut rng, &spec);
+    c.reparse = false;
+    c
+}
 
 impl Plan for C18Plan {
     fn total(&self) -> usize {
-        C18_A + C18_B + C18_C + self.seeded
+        C18_A + C18_B + C18_C + C18_D + C18_E + self.seeded
     }
     fn enumerated(&self) -> usize {
-        C18_A + C18_B + C18_C
+        C18_A + C18_B + C18_C + C18_D + C18_E
     }
     fn case(&self, idx: usize) -> AnyCase {
+        let base = C18_A + C18_B + C18_C;
+        if (base..base + C18_D).contains(&idx) {
+            let j = idx - base;
+            return AnyCase::New(c18_near_miss(1 + j / 3, j % 3));
+        }
+        if (base + C18_D..base + C18_D + C18_E).contains(&idx) {
+            return AnyCase::New(c18_boundary_plant(idx - base - C18_D));
+        }
+        // the seeded cases keep the numbering they had before these families were added
+        let idx = if idx >= base + C18_D + C18_E { idx - C18_D - C18_E } else { idx };
         if (C18_A + C18_B..C18_A + C18_B + C18_C).contains(&idx) {
             let k = idx - C18_A - C18_B;
             let mut rng = fixed_rng(0xC18C, idx);
